@@ -369,7 +369,7 @@ def synchronize_files(inputpaths, outpath, database=None, tqdm_bar=None, report_
         if database:
             if rfigc.main("-i \"%s\" -d \"%s\" -m --silent" % (outpathfull, database)) == 1:
                 errcode = 1
-                r_row[-3] = "KO"
+                if report_file: r_row[-3] = "KO"
                 if not errmsg: errmsg = ''
                 errmsg += " File could not be totally repaired according to rfigc database."
             else:
